@@ -37,14 +37,26 @@ class Builder:
         self.log = log
         self.gone = []       # abstract names that were features once and are not any more (removed, renamed away)
 
-    def _event(self, h):
+    def _event(self, h, out='value'):
         if not self.log:
             return
         post, anom = project(self.model, self.naming)
         self.events.append({'a': h['a'], 'args': {k: v for k, v in h.items() if k != 'a'},
-                            'out': 'value', 'post': post, 'anom': anom})
+                            'out': out, 'post': post, 'anom': anom})
 
     def step(self, h):
+        """One call of the history.  When events are logged, a call that raises is an event with out = error:<class>
+        (judged by C03.build.total); otherwise the exception propagates."""
+        out = 'value'
+        try:
+            self._apply(h)
+        except Exception as exc:
+            if not self.log or self.model is None:
+                raise
+            out = 'error:' + type(exc).__name__
+        self._event(h, out)
+
+    def _apply(self, h):
         a = h['a']
         nm = self.naming
         if a == 'NewModel':
@@ -120,7 +132,6 @@ class Builder:
             self.objs[h['n']] = f
         else:
             raise ValueError('unknown builder action ' + a)
-        self._event(h)
 
     def run(self, hist):
         for h in hist:
@@ -133,8 +144,8 @@ class Builder:
         keep, self.log = self.log, False
         out = 'value'
         try:
-            self.step(h)
-        except (IndexError, KeyError, ValueError, AttributeError) as exc:
+            self._apply(h)
+        except Exception as exc:
             out = 'error:' + type(exc).__name__
         self.log = keep
         post, anom = project(self.model, self.naming)
